@@ -172,6 +172,46 @@ def c16(tier, seed):
              "Deblock!DeblockImage and the table must equal Table J.2 as transcribed in Deblock!TableJ2" % (wmax, hmax))
 
 
+# =========================================================================== C14
+@plan("C14")
+def c14(tier, seed):
+    from . import readergen
+    run = Run("C14", tier, seed)
+    rng = random.Random(seed)
+    # (a) the reader model, exhaustively: all op sequences of bounded length over small sources
+    run.model_check("MCBitReader", "MCBitReader" if tier == "quick" else "MCBitReaderDeep", workers=16, xmx="8g",
+                    timeout=1500)
+    # (b) spec -> implementation: TLC-generated behaviours replayed into the real H263Reader
+    nseeds, num = (8, 40) if tier == "quick" else (16, 600)
+    gens = run.generate_sim("MCBitReader", "MCBitReaderSim", num=num, depth=20,
+                            seeds=[seed * 1000 + k for k in range(nseeds)])
+    # (TLC evaluates the export invariant on every successor it generates, so each simulated trace
+    # yields all one-step continuations of its prefix: all are behaviours of the model)
+    cap = 8000 if tier == "quick" else 150000
+    if len(gens) > cap:
+        rng.shuffle(gens)
+        gens = gens[:cap]
+    cmds = [readergen.from_tlc(g) for g in gens]
+    n_tlc = len(cmds)
+    # (c) implementation -> spec: long seeded random operation sequences
+    nrand, nops, maxb = (2500, 40, 12) if tier == "quick" else (30000, 120, 64)
+    cmds += [readergen.random_seq(rng, rng.randrange(5, nops), rng.choice([3, 4, 6, maxb])) for _ in range(nrand)]
+    run.drive_and_validate(cmds, "TraceBitReader", sample=3)
+    run.evaluations = sum(len(c["ops"]) for c in cmds)
+    run.nontrivial = len({json.dumps([c["src"], c["ops"]]) for c in cmds})
+    run.notes["tlc_generated_behaviours_replayed"] = n_tlc
+    run.notes["random_sequences"] = nrand
+    run.notes["operations_validated"] = run.evaluations
+    return run.finish(
+        rule="model: exhaustive BFS of MCBitReader (all sources <= 3 bytes over a 4-byte alphabet, all op sequences of "
+             "length <= %d, nesting <= 2) checking InOrderOnce, BufferAccounting, ResultsAreFaithful, RollbackRestores; "
+             "implementation: every behaviour exported by TLC simulation of the same model plus seeded random sequences "
+             "(<= %d ops, sources <= %d bytes, widths 0..33, six result types, two VLC tables, Table D.3 codes, growing "
+             "source) replayed in the real H263Reader with nested closures; every result and a look-ahead probe after "
+             "every operation validated by TraceBitReader; distinct = distinct (source, op list) pairs"
+             % (3 if tier == "quick" else 4, nops, maxb))
+
+
 # =========================================================================== replay
 def replay(pid, path, seed):
     rec = json.load(open(path))
@@ -182,4 +222,4 @@ def replay(pid, path, seed):
     return run.finish(rule="replay of %s" % path)
 
 
-REPLAY_MODULE = {"C07": "TraceYuv", "C08": "TraceYuv", "C09": "TraceDeblock", "C16": "TraceDeblock"}
+REPLAY_MODULE = {"C07": "TraceYuv", "C08": "TraceYuv", "C09": "TraceDeblock", "C16": "TraceDeblock", "C14": "TraceBitReader"}
